@@ -47,6 +47,10 @@ CLAIMED = {
    text='Decides: the cardinality reported to clients derives only from the inferred ir.cardinality of the same IR through an identity mapping that covers every member; every concrete IR expression/statement class resolves to a non-raising cardinality and multiplicity handler (reasoned inline exceptions) and the sibling registries agree; declared single/required pointers and globals are enforced by comparisons in the right direction that dominate the pointer update; four bound facts forced by set semantics (EXCEPT/INTERSECT lower bound zero, UNION sums, empty set may be empty, DISTINCT is UNIQUE and the multi fall-through is DUPLICATE). The soundness of the remaining bounds algebra is not decided - that needs the reference semantics, not source shape.',
    note=NOTE,
    technique='static analysis: provenance of reported values, singledispatch registry exhaustiveness over the IR class hierarchy with sibling cross-check, CFG dominance of enforcement comparisons, operator-arm table facts'),
+ 'C04': dict(
+   text='Decides for the schema store: FlatSchema is persistent (seven fields assigned only in __init__ and on the fresh object in _replace, which installs every map; nothing in edb/ writes through them; bulk loader and map-mutation contexts publish through one _replace); every mutator that derives a new object-data map passes the type map, the three name indexes (from _update_obj_name with the right old/new names) and the reverse-reference index (from _update_refs_to with the right old/new sets, skipped only under the not-an-object-reference test) to the returning _replace; the only semantic deleter is DeleteObject._delete_finalize, where the delete is dominated by the referrer check; lookups read the maps of self and memoisation is per instance or keyed by the schema value; rename sets the name and renames owned children under the new parent name. The arithmetic of _update_refs_to and expression rewriting are not decided.',
+   note=NOTE,
+   technique='static analysis: whole-repo who-may-write / who-may-call scans, keyword-argument provenance into the copy constructor, CFG dominance of the referrer check, decorator audit'),
 }
 
 _PENDING = 'check not built yet in this round (design in DESIGN.md §3); will be claimed when its rules are armed'
